@@ -38,6 +38,7 @@ Clause of the property sentence                         theorem(s)
   linear in each density                                 `line_linear_in_density`, `line_additive_in_density`, `thermalcx_linear_in_receiver`,
                                                          `thermalcx_linear_in_donor`, `thermalcx_additive_in_donors`, `trp_linear_in_density`,
                                                          `trp_three_terms`, `brems_linear_in_density`, `brems_linear_in_ne`
+  no state carried between evaluations                   `bremsFill_overwrites`, `brems_eval_stateless`, `brems_history_independent`
   constants                                              `constants_match_codata`, `constants_translation_consistent`, `exp_factor_exact`
 -/
 
@@ -1243,5 +1244,307 @@ example : HydNeutralsListed ([⟨9, 6, 5, 1, 1⟩, ⟨0, 1, 0, 2, 1⟩, ⟨2, 1,
   intro s hs h0
   simp only [List.mem_cons, List.not_mem_nil, or_false] at hs
   rcases hs with h | h | h | h <;> subst h <;> simp_all [Gen.PassiveFlags.trpHydrogenIds]
+
+/-! ## Proof-deepening pass -/
+
+/-! ### (v) no state is carried between evaluations: the Bremsstrahlung cache -/
+
+theorem bremsFill_append (comp : List (Sp α)) (pre buf : List α)
+    (hl : buf.length = (bremsDensities comp).length) :
+    bremsFill comp (pre ++ buf) pre.length = pre ++ bremsDensities comp := by
+  induction comp generalizing pre buf with
+  | nil =>
+    simp only [bremsDensities, List.filter_nil, List.map_nil, List.length_nil] at hl
+    simp [bremsFill, bremsDensities, List.eq_nil_of_length_eq_zero hl]
+  | cons s t ih =>
+    by_cases hc : s.charge > 0
+    · have hd : bremsDensities (s :: t) = s.dens :: bremsDensities t := by
+        simp [bremsDensities, hc]
+      rw [hd] at hl ⊢
+      cases buf with
+      | nil => simp at hl
+      | cons b bs =>
+        simp only [List.length_cons, Nat.add_right_cancel_iff] at hl
+        simp only [bremsFill, hc, if_true]
+        have hset : (pre ++ b :: bs).set pre.length s.dens = (pre ++ [s.dens]) ++ bs := by
+          rw [List.set_append_right _ _ (le_refl _)]; simp
+        have hlen : pre.length + 1 = (pre ++ [s.dens]).length := by simp
+        rw [hset, hlen, ih (pre ++ [s.dens]) bs hl]; simp
+    · have hd : bremsDensities (s :: t) = bremsDensities t := by
+        simp [bremsDensities, hc]
+      rw [hd] at hl ⊢
+      simp only [bremsFill, hc, if_false]
+      exact ih pre buf hl
+
+/-- **the buffer is overwritten completely**: whatever the buffer held (values of a previously evaluated point), after the
+fill loop it holds exactly the current densities of the charged species, provided only its length matches -/
+theorem bremsFill_overwrites (comp : List (Sp α)) (buf : List α) (hl : buf.length = (bremsDensities comp).length) :
+    bremsFill comp buf 0 = bremsDensities comp := by
+  have := bremsFill_append comp [] buf hl
+  simpa using this
+
+/-- cache invariant: the cached charges are those of the composition and the buffer has one slot per charge -/
+def CacheFor (comp : List (Sp α)) (c : BremsCache α) : Prop :=
+  c.charges = bremsCharges comp ∧ c.buf.length = c.charges.length
+
+theorem charges_densities_length (comp : List (Sp α)) : (bremsDensities comp).length = (bremsCharges comp).length := by
+  simp [bremsDensities, bremsCharges]
+
+theorem cacheFor_populate (comp : List (Sp α)) : CacheFor comp (bremsPopulate comp) := by
+  simp [CacheFor, bremsPopulate]
+
+/-- the state admitted at a point: cleared (`_change()` ran), or a cache for a composition with the same charged species -/
+def StateFor (comp : List (Sp α)) (st : Option (BremsCache α)) : Prop := ∀ c, st = some c → CacheFor comp c
+
+/-- **point independence**: one `emission` call on *any* admissible persistent state returns exactly what the stateless
+model returns for that point, and leaves an admissible state -/
+theorem brems_eval_stateless (sqrt exp : α → α) (bc ef : α) (gaunt : α → α → α → α) (integ : (α → α) → α → α → α)
+    (st : Option (BremsCache α)) (comp : List (Sp α)) (hst : StateFor comp st) (ne te mn delta : α) (bins : Nat) :
+    (bremsEvalSt sqrt exp bc ef gaunt integ st comp ne te mn delta bins).2
+        = bremsEmission sqrt exp bc ef gaunt integ comp ne te mn delta bins ∧
+    StateFor comp (bremsEvalSt sqrt exp bc ef gaunt integ st comp ne te mn delta bins).1 := by
+  have key : ∀ c : BremsCache α, CacheFor comp c →
+      (bremsEvalSt sqrt exp bc ef gaunt integ (some c) comp ne te mn delta bins).2
+          = bremsEmission sqrt exp bc ef gaunt integ comp ne te mn delta bins ∧
+      StateFor comp (bremsEvalSt sqrt exp bc ef gaunt integ (some c) comp ne te mn delta bins).1 := by
+    intro c hc
+    have hfill : bremsFill comp c.buf 0 = bremsDensities comp :=
+      bremsFill_overwrites comp c.buf (by rw [hc.2, hc.1, charges_densities_length])
+    unfold bremsEvalSt bremsEmission
+    by_cases h1 : ne ≤ 0
+    · simp only [h1, if_true]
+      exact ⟨trivial, fun c' h' => by cases h'; exact hc⟩
+    · by_cases h2 : te ≤ 0
+      · simp only [h1, h2, if_true, if_false]
+        exact ⟨trivial, fun c' h' => by cases h'; exact hc⟩
+      · simp only [h1, h2, if_false, hfill, hc.1]
+        refine ⟨trivial, fun c' h' => ?_⟩
+        cases h'
+        exact ⟨rfl, by simp [charges_densities_length]⟩
+  cases st with
+  | none =>
+    have := key (bremsPopulate comp) (cacheFor_populate comp)
+    simpa [bremsEvalSt] using this
+  | some c => exact key c (hst c rfl)
+
+/-- **history theorem**: any sequence of evaluations of one instance over a non-uniform plasma (the charged species are
+the same at every point, their densities, `n_e`, `T_e` arbitrary: present, zero, negative) yields at every step the
+stateless value of that point — nothing is carried over from previously evaluated points, in any visiting order -/
+theorem brems_history_independent (sqrt exp : α → α) (bc ef : α) (gaunt : α → α → α → α) (integ : (α → α) → α → α → α)
+    (mn delta : α) (bins : Nat) (comp0 : List (Sp α)) (hist : List (BremsPoint α))
+    (hsame : ∀ p ∈ hist, bremsCharges p.comp = bremsCharges comp0)
+    (st : Option (BremsCache α)) (hst : StateFor comp0 st) :
+    bremsRun sqrt exp bc ef gaunt integ mn delta bins st hist
+      = hist.map (fun p => bremsEmission sqrt exp bc ef gaunt integ p.comp p.ne p.te mn delta bins) := by
+  have transfer : ∀ (a b : List (Sp α)) (s : Option (BremsCache α)), bremsCharges a = bremsCharges b → StateFor a s → StateFor b s := by
+    intro a b s hab h c hc
+    obtain ⟨h1, h2⟩ := h c hc
+    exact ⟨by rw [h1, hab], h2⟩
+  induction hist generalizing st with
+  | nil => rfl
+  | cons p ps ih =>
+    have hp := hsame p (by simp)
+    have hstp : StateFor p.comp st := transfer comp0 p.comp st hp.symm hst
+    obtain ⟨hval, hnext⟩ := brems_eval_stateless sqrt exp bc ef gaunt integ st p.comp hstp p.ne p.te mn delta bins
+    simp only [bremsRun, List.map_cons, hval]
+    congr 1
+    exact ih (fun q hq => hsame q (by simp [hq])) _ (transfer p.comp comp0 _ hp hnext)
+
+/-- counter-model (NOT the code): the fill loop that writes a slot only for a positive density ("skip absent species") -/
+def bremsFillIfPositive : List (Sp α) → List α → Nat → List α
+  | [], buf, _ => buf
+  | s :: t, buf, i =>
+    if s.charge > 0 then bremsFillIfPositive t (if s.dens > 0 then buf.set i s.dens else buf) (i + 1)
+    else bremsFillIfPositive t buf i
+
+/-- **witness**: for that variant `bremsFill_overwrites` is false — a species absent at the current point keeps the density
+of the previously evaluated point (the round-3 seeded change); the code's loop gives the current value -/
+theorem brems_fill_if_positive_keeps_stale_value :
+    bremsFillIfPositive ([⟨2, 1, 1, 0, 5⟩] : List (Sp ℚ)) [7] 0 = [7] ∧
+    bremsFill ([⟨2, 1, 1, 0, 5⟩] : List (Sp ℚ)) [7] 0 = [0] := by
+  constructor <;> simp [bremsFillIfPositive, bremsFill]
+
+example : StateFor ([⟨2, 1, 1, 3, 5⟩, ⟨9, 6, 0, 1, 1⟩] : List (Sp ℚ)) (some ⟨[1], [42]⟩) := by
+  intro c hc; cases hc; simp [CacheFor, bremsCharges]
+
+example : bremsRun (α := ℚ) id (fun _ => 1) 1 0 (fun _ _ _ => 1) (fun f a b => f a * (b - a)) 1 1 1 none
+    [⟨[⟨2, 1, 1, 3, 5⟩], 1, 1⟩, ⟨[⟨2, 1, 1, 0, 5⟩], 1, 1⟩, ⟨[⟨2, 1, 1, 3, 5⟩], 0, 1⟩, ⟨[⟨2, 1, 1, 2, 5⟩], 1, 1⟩]
+    = [some [3], some [0], none, some [2]] := by
+  rw [brems_history_independent id (fun _ => 1) 1 0 _ _ 1 1 1 [⟨2, 1, 1, 3, 5⟩] _ (by intro p hp; simp at hp; rcases hp with h | h | h | h <;> subst h <;> simp [bremsCharges])
+    none (fun c h => by cases h)]
+  norm_num [bremsEmission, bremsBins, bremsBinsFrom, bremsFunction, bremsSum, bremsCharges, bremsDensities]
+
+/-! ### donor-set selection over arbitrary compositions -/
+
+/-- **TotalRadiatedPower donors**: the species summed into `n_hyd` are exactly the neutrals of the composition whose element
+is in the looked-up tuple — each found by `get(element, 0)`, nothing else, for every composition -/
+theorem trp_donor_selection (comp : List (Sp α)) (hyd : List Nat) (s : Sp α) :
+    s ∈ trpHydSpecies comp hyd ↔ ∃ h ∈ hyd, getSp comp h 0 = some s := by
+  unfold trpHydSpecies
+  simp [List.mem_filterMap]
+
+theorem getSp_of_mem (comp : List (Sp α)) (hk : KeysNodup comp) (s : Sp α) (hs : s ∈ comp) :
+    getSp comp s.elem s.charge = some s := by
+  unfold getSp
+  induction comp with
+  | nil => cases hs
+  | cons x t ih =>
+    unfold KeysNodup at hk
+    simp only [List.map_cons, List.nodup_cons] at hk
+    rcases List.mem_cons.1 hs with h | h
+    · subst h; simp [isKey]
+    · have hne : isKey s.elem s.charge x = false := by
+        cases hx : isKey s.elem s.charge x
+        · rfl
+        · exfalso
+          have := (isKey_iff s.elem s.charge x).1 hx
+          apply hk.1
+          simp only [List.mem_map]
+          exact ⟨s, h, by rw [this.1, this.2]⟩
+      simp only [List.find?_cons, hne]
+      exact ih hk.2 h
+
+/-- … hence, with unique keys: `s` is a CX donor of the total-radiated-power model iff it is a neutral of a listed element -/
+theorem trp_donor_selection_keys (comp : List (Sp α)) (hk : KeysNodup comp) (hyd : List Nat) (s : Sp α) :
+    s ∈ trpHydSpecies comp hyd ↔ s ∈ comp ∧ s.charge = 0 ∧ s.elem ∈ hyd := by
+  rw [trp_donor_selection]
+  constructor
+  · rintro ⟨h, hh, hg⟩
+    obtain ⟨hm, he, hc⟩ := getSp_some_mem comp h 0 s hg
+    exact ⟨hm, hc, he ▸ hh⟩
+  · rintro ⟨hm, hc, he⟩
+    exact ⟨s.elem, he, by have := getSp_of_mem comp hk s hm; rwa [hc] at this⟩
+
+/-- **current source**: over the element registry the donors are exactly the hydrogen-isotope neutrals (Z = 1, charge 0) -/
+theorem trp_donor_selection_current_source (comp : List (Sp α)) (hk : KeysNodup comp) (hr : OverRegistry comp) (s : Sp α) :
+    s ∈ trpHydSpecies comp Gen.PassiveFlags.trpHydrogenIds ↔ s ∈ comp ∧ s.charge = 0 ∧ s.z = 1 := by
+  rw [trp_donor_selection_keys comp hk]
+  constructor
+  · rintro ⟨hm, hc, he⟩; exact ⟨hm, hc, ((listed_of_registry comp hr) s hm hc).1 he⟩
+  · rintro ⟨hm, hc, hz⟩; exact ⟨hm, hc, ((listed_of_registry comp hr) s hm hc).2 hz⟩
+
+example : (⟨1, 1, 0, 5, 1⟩ : Sp ℚ) ∈ trpHydSpecies ([⟨10, 7, 7, 1, 1⟩, ⟨1, 1, 0, 5, 1⟩, ⟨2, 1, 1, 9, 1⟩] : List (Sp ℚ))
+    Gen.PassiveFlags.trpHydrogenIds := by
+  rw [trp_donor_selection]; exact ⟨1, by decide, by simp [getSp, isKey]⟩
+
+/-! ### guards ⇒ exactly zero emission, at composition level, for every model kind -/
+
+/-- **excitation / recombination**: whenever the model evaluates (species present), `n_e ≤ 0`, `T_e ≤ 0` or a non-positive
+target density give *no* `add_line` call — exactly zero emission, for every composition and coefficient -/
+theorem line_models_zero_when_guarded (pi : α) (prov : Nat → Nat → α → α → α) (comp : List (Sp α)) (ne te : α)
+    (le lc : Nat) :
+    (∀ s, getSp comp le lc = some s → (ne ≤ 0 ∨ te ≤ 0 ∨ s.dens ≤ 0) →
+      excitationLine pi prov comp ne te le lc = some none) ∧
+    (∀ s, getSp comp le (lc + 1) = some s → (ne ≤ 0 ∨ te ≤ 0 ∨ s.dens ≤ 0) →
+      recombinationLine pi prov comp ne te le lc = some none) := by
+  constructor <;> intro s hs hg
+  · unfold excitationLine; rw [hs]; simp [(line_zero_guards pi _ ne te s.dens hg).1]
+  · unfold recombinationLine; rw [hs]; simp [(line_zero_guards pi _ ne te s.dens hg).1]
+
+/-- **thermal CX, current source**: no `add_line` call when `n_e`, `T_e` or the receiver density is non-positive; and when
+every eligible donor has a non-positive density or temperature the radiance handed over is exactly 0 -/
+theorem thermalcx_zero_when_guarded (pi : α) (prov : Nat → Nat → α → α → α → α) (comp : List (Sp α)) (ne te : α)
+    (le lc : Nat) (s : Sp α) (hs : getSp comp le (lc + 1) = some s) :
+    ((ne ≤ 0 ∨ te ≤ 0 ∨ s.dens ≤ 0) →
+      thermalCXLine Gen.PassiveFlags.thermalCXDonorDensityGuard Gen.PassiveFlags.thermalCXDonorTemperatureGuard
+        pi prov comp ne te le lc = some none) ∧
+    ((∀ d ∈ comp, PassiveSpec.donorOf le (lc + 1) d → d.dens ≤ 0 ∨ d.temp ≤ 0) →
+      ∀ r, thermalCXLine Gen.PassiveFlags.thermalCXDonorDensityGuard Gen.PassiveFlags.thermalCXDonorTemperatureGuard
+        pi prov comp ne te le lc = some r → emitted r = 0) := by
+  constructor
+  · intro hg
+    unfold thermalCXLine; rw [hs]
+    simp [thermalcx_zero_guards _ _ pi prov ne te s.dens _ hg]
+  · intro hd r hr
+    unfold thermalCXLine at hr; rw [hs] at hr; cases hr
+    rw [thermalCXCall_val, cx_guards_present.1, cx_guards_present.2]
+    have : ((cxDonors comp le (lc + 1)).map (cxTerm true true prov ne te)).sum = 0 := by
+      apply sum_map_zero
+      intro d hdm
+      obtain ⟨hm, h1, h2⟩ := (cx_donor_filter comp le (lc + 1) d).1 hdm
+      exact thermalcx_donor_zero_guards prov ne te d (hd d hm ⟨h1, h2⟩)
+    rw [this]; split_ifs <;> simp
+
+/-- **total radiated power**: early return for `n_e ≤ 0` / `T_e ≤ 0`; exactly zero increment when the line-radiating and
+the recombining density are both non-positive (whatever the hydrogen density and the coefficients) -/
+theorem trp_zero_when_guarded (pi : α) (prov : Nat → Nat → Nat → Option (α → α → α)) (hyd : List Nat)
+    (comp : List (Sp α)) (ne te mn mx : α) (e c : Nat) (s su : Sp α)
+    (hs : getSp comp e c = some s) (hsu : getSp comp e (c + 1) = some su) :
+    ((ne ≤ 0 ∨ te ≤ 0) → totalRadiatedPower pi prov hyd comp ne te mn mx e c = some none) ∧
+    (s.dens ≤ 0 → su.dens ≤ 0 → ∀ r, totalRadiatedPower pi prov hyd comp ne te mn mx e c = some r → emitted r = 0) := by
+  constructor
+  · intro hg
+    unfold totalRadiatedPower; rw [hs, hsu]
+    simp [(trp_zero_guards pi _ _ _ ne te s.dens su.dens _ mn mx).1 hg]
+  · intro h1 h2 r hr
+    unfold totalRadiatedPower at hr; rw [hs, hsu] at hr; cases hr
+    rw [trpCall_val]
+    have : PassiveSpec.trpPowerDensity (prov 0 e c) (prov 1 e (c + 1)) (prov 2 e (c + 1)) ne te s.dens su.dens
+        (trpNhyd (trpHydSpecies comp hyd)) = 0 := by
+      simp [PassiveSpec.trpPowerDensity, not_lt.mpr h1, not_lt.mpr h2]
+    rw [this]; split_ifs <;> simp
+
+theorem gqOrder_zero (c d : α) (rule : List (α × α)) : gqOrder (fun _ => (0 : α)) c d rule = 0 := by
+  unfold gqOrder; rw [foldl_add_sum]; simp
+
+theorem gaussQuad_zero (rules : List (List (α × α))) (rtol a b : α) : gaussQuad rules rtol (fun _ => (0 : α)) a b = 0 := by
+  unfold gaussQuad
+  have : ∀ (old : Option α) (last : α), last = 0 →
+      gqLoop (fun _ => (0 : α)) (0.5 * (a + b)) (0.5 * (b - a)) rtol rules old last = 0 := by
+    induction rules with
+    | nil => intro old last h; simp [gqLoop, h]
+    | cons r rs ih =>
+      intro old last _
+      simp only [gqLoop, gqOrder_zero]
+      split_ifs
+      · rfl
+      · exact ih _ _ rfl
+  exact this none 0 rfl
+
+theorem bremsBinsFrom_zero (integ : α → α → α) (hz : ∀ a b, integ a b = 0) (mn delta : α) (k i : Nat) (lower : α) :
+    bremsBinsFrom integ mn delta k i lower = List.replicate k 0 := by
+  induction k generalizing i lower with
+  | zero => rfl
+  | succ k ih => simp [bremsBinsFrom, hz, ih, List.replicate_succ]
+
+/-- **bremsstrahlung with the default integrator** (the code's Gauss–Legendre loop, any rules, any tolerance): early return
+for `n_e ≤ 0` / `T_e ≤ 0`; and when no charged species has a positive density every bin receives exactly 0 -/
+theorem brems_zero_when_guarded (sqrt exp : α → α) (bc ef : α) (gaunt : α → α → α → α) (rules : List (List (α × α)))
+    (rtol : α) (comp : List (Sp α)) (ne te mn delta : α) (bins : Nat) :
+    ((ne ≤ 0 ∨ te ≤ 0) → bremsEmission sqrt exp bc ef gaunt (gaussQuad rules rtol) comp ne te mn delta bins = none) ∧
+    (0 < ne → 0 < te → (∀ s ∈ comp, 0 < s.charge → s.dens ≤ 0) →
+      bremsEmission sqrt exp bc ef gaunt (gaussQuad rules rtol) comp ne te mn delta bins = some (List.replicate bins 0)) := by
+  constructor
+  · exact (brems_zero_guards sqrt exp bc ef gaunt _ comp ne te mn delta bins 0 0 0 0).1
+  · intro hne hte hall
+    have hsum : ∀ wvl, bremsSum gaunt te wvl (bremsCharges comp) (bremsDensities comp) = 0 := by
+      intro wvl
+      rw [bremsSum_sum]
+      apply sum_map_zero
+      intro p hp
+      unfold bremsCharges bremsDensities at hp
+      rw [List.zip_map', List.mem_map] at hp
+      obtain ⟨s, hsm, rfl⟩ := hp
+      obtain ⟨hm, hc⟩ := List.mem_filter.1 hsm
+      have : s.dens ≤ 0 := hall s hm (by simpa using hc)
+      simp [bremsTerm, not_lt.mpr this]
+    have hf : bremsFunction sqrt exp bc ef gaunt ne te (bremsCharges comp) (bremsDensities comp) = fun _ => 0 := by
+      funext wvl; unfold bremsFunction; rw [hsum]; simp
+    unfold bremsEmission
+    simp only [not_le.mpr hne, not_le.mpr hte, if_false, hf, bremsBins]
+    rw [bremsBinsFrom_zero _ (fun a b => gaussQuad_zero rules rtol a b)]
+
+/-- `samples[i] += radiance`: what was in the incoming spectrum is kept, the increment is the same in every bin -/
+theorem add_to_bins_keeps_incoming (samples : List α) (r : Option α) (i : Nat) (hi : i < samples.length) :
+    (addToBins samples r)[i]? = some (samples[i] + emitted r) := by
+  cases r with
+  | none => simp [addToBins, emitted, hi]
+  | some v => simp [addToBins, emitted, hi]
+
+example : bremsEmission (α := ℚ) id id 1 1 (fun _ _ _ => 1) (gaussQuad [[(0, 2)]] (1 / 10)) [⟨2, 1, 1, -3, 5⟩, ⟨2, 1, 0, 4, 5⟩] 1 1 400 1 3
+    = some [0, 0, 0] := by
+  rw [(brems_zero_when_guarded id id 1 1 _ _ _ _ 1 1 400 1 3).2 (by norm_num) (by norm_num)
+    (by intro s hs hc; simp at hs; rcases hs with h | h <;> subst h <;> simp_all)]
+  rfl
 
 end Cherab.Props.C03
